@@ -230,7 +230,26 @@ func main() {
 			var eb bytes.Buffer
 			c.Stdout = &eb
 			c.Stderr = &eb
-			err := c.Run()
+			// hard limit: a shard that wedges (e.g. the code under test hangs outside a
+			// bubble) must not hang the driver; it is reported as an infrastructure failure
+			limit := time.Duration(deadline*3+300) * time.Second
+			if deadline == 0 {
+				limit = 2 * time.Hour
+			}
+			var err error
+			if serr := c.Start(); serr != nil {
+				err = serr
+			} else {
+				done := make(chan error, 1)
+				go func() { done <- c.Wait() }()
+				select {
+				case err = <-done:
+				case <-time.After(limit):
+					c.Process.Kill()
+					err = fmt.Errorf("shard killed after %s (hard limit)", limit)
+					<-done
+				}
+			}
 			outs[s].stderr = eb.String()
 			outs[s].err = err
 			if b, rerr := os.ReadFile(of); rerr == nil {
